@@ -451,9 +451,13 @@ func (gen *generator) getIndex(index ast.Constant) gep.Index {
 					}
 				}
 			default:
-				// TODO: remove debug output.
-				panic(fmt.Errorf("support for gep index vector element type %T not yet implemented", elem))
-				//return gep.Index{HasVal: false}
+				// a non-integer-literal element (e.g. undef, poison, boolean or
+				// constant expression) has no known value, so the index vector
+				// does not have a concrete value.
+				return gep.Index{
+					HasVal:    false,
+					VectorLen: uint64(len(elems)),
+				}
 			}
 		}
 		return gep.Index{
@@ -461,11 +465,12 @@ func (gen *generator) getIndex(index ast.Constant) gep.Index {
 			Val:       val,
 			VectorLen: uint64(len(elems)),
 		}
-	case *ast.PtrToIntExpr:
-		return gep.Index{HasVal: false}
 	case *ast.UndefConst:
 		return gep.Index{HasVal: false}
 	case *ast.PoisonConst:
+		return gep.Index{HasVal: false}
+	case ast.ConstantExpr:
+		// constant expressions are not simplified; the index has no known value.
 		return gep.Index{HasVal: false}
 	default:
 		// TODO: add support for more constant expressions.
